@@ -312,12 +312,28 @@ def execute(sc):
             elif api == 'unsupported':
                 name = sc['bad_name']
                 e = gemato.manifest.ManifestEntryDATA('f', n, {name: '00'})
-                r = call(gemato.verify.verify_path, path, e)
-                ok = r[0] == 'GE' and r[1] == 'UnsupportedHash'
-                if not ok:
-                    violations.append(viol('hash.unsupported-not-reported',
-                                           'hash name %s: verify_path gave %r' % (name, r[:2]),
-                                           sig='%s:%s' % (r[0], r[1] if r[0] != 'ok' else 'ok')))
+                # (asked twice: the answer to a request must not depend on the same request having been refused before)
+                for nth_ in ('first', 'second'):
+                    r = call(gemato.verify.verify_path, path, e)
+                    ok = r[0] == 'GE' and r[1] == 'UnsupportedHash'
+                    if not ok:
+                        violations.append(viol('hash.unsupported-not-reported',
+                                               'hash name %s: verify_path gave %r (%s request)' % (name, r[:2], nth_),
+                                               sig='%s:%s' % (r[0], r[1] if r[0] != 'ok' else 'ok')))
+                        break
+                try:
+                    hashlib.new(name)
+                    hl_knows = True      # (hash_file takes hashlib's own names: 'sha256' is one, the Manifest name is SHA256)
+                except (ValueError, TypeError):
+                    hl_knows = False
+                for nth_ in ('first', 'second'):
+                    if hl_knows:
+                        break
+                    r = call(gemato.hash.hash_file, io.BytesIO(content), list(sc['hashlib']) + [name, '__size__'])
+                    if not (r[0] == 'GE' and r[1] == 'UnsupportedHash'):
+                        violations.append(viol('hash.unsupported-not-reported', 'hash_file with %r among the requested names gave %r (%s request)' % (
+                            name, r[:2] if r[0] != 'ok' else ('ok', sorted(r[1])), nth_), sig='hash_file:' + nth_))
+                        break
                 # the unsupported name next to supported ones whose recorded values are right (before, between, after)
                 good = expected(content, sc['hashes'])
                 items = list(good.items())
